@@ -127,6 +127,11 @@ def run_rules(ctx: Ctx, prop: str) -> list[RuleResult]:
         rules += THOROUGH.get(prop, [])
     for fn in rules:
         res = fn(ctx)
+        uniq: dict = {}
+        for inst in res.instances:
+            k = (inst.key, inst.ok, inst.where)
+            uniq.setdefault(k, inst)
+        res.instances = list(uniq.values())
         if len(res.instances) < res.floor:
             raise AnalysisError(
                 f"rule {res.rule}: {len(res.instances)} obligation instance(s) found, "
